@@ -7,7 +7,8 @@
 From Coq Require Import ZArith List String Bool Lia.
 Import ListNotations.
 Require Import Verif.lib.PyLite Verif.gen.BananaGen Verif.gen.SlicersGen Verif.lib.Token Verif.lib.TokenProofs
-        Verif.lib.Obj Verif.lib.ObjProofs.
+        Verif.lib.Obj Verif.lib.ObjProofs Verif.lib.ObjDefer Verif.lib.ObjDeferProofs
+        Verif.lib.ObjChunks Verif.lib.ObjVocab.
 Local Open Scope Z_scope.
 
 (* "Any object graph built from the supported pass-by-value types ... including graphs with shared sub-objects and
@@ -15,32 +16,99 @@ Local Open Scope Z_scope.
    same sharing/cycle structure": for EVERY well-formed term (any nesting depth, ints of any magnitude, bool vs int,
    bytes vs text, list vs tuple vs set vs frozenset vs dict vs Copyable, back-references incl. a container inside
    itself, nested call scopes) the receiver rebuilds exactly the denoted graph: same node numbers, same kinds, same
-   children, same pointers.  Guard wf_obj = what a sender can emit, minus the known-defective region (below). *)
-Theorem C01_slice_unslice : forall scoped n t, wf_obj scoped n t = true ->
+   children, same pointers.  Guard wf_obj_wide = every reference resolves in its scope, dict / Copyable shapes, and NOT the
+   known-defective region (a Copyable attribute value / dict key that refers to a tuple, frozenset or Copyable still being
+   built: C01_refuted_* below).  Cycles through nested tuples (l = []; t = (l,); l.append((t,))) are inside the guard.
+   WHAT IS MODELLED: the receiver is a machine (`run`, and the Deferred-level `drun` below).  The SENDER is not a machine:
+   `slice` is defined on the canonical term (the term already says which occurrence is a reference), there is no id()-keyed
+   reference table in the model; that the real slicer stack (ScopedSlicer.slicerForObject / registerRefID, RootSlicer) emits
+   `slice (canonical term of the graph)` is tied by translated flags (trackReferences, opentype), fail-closed shape facts and
+   the per-case sender-bytes correspondence only. *)
+Theorem C01_slice_unslice : forall scoped n t, wf_obj_wide scoped n t = true ->
   unslice scoped n (slice n t) = Some (heap_of n t, [val_of n t]).
-Proof. exact slice_unslice. Qed.
+Proof. exact slice_unslice_wide. Qed.
 Print Assumptions C01_slice_unslice.
 
 (* the same for a sequence of top-level objects (successive calls/answers; several objects on one storage Banana) *)
-Theorem C01_slice_unslice_list : forall scoped n ts v, wf_list scoped [] [] n ts = Some v ->
+Theorem C01_slice_unslice_list : forall scoped n ts v, wf_list_wide scoped [] [] n ts = Some v ->
   unslice scoped n (slice_list n ts) = Some (heap_list n ts, vals_list n ts).
-Proof. exact slice_unslice_list. Qed.
+Proof. exact slice_unslice_list_wide. Qed.
 Print Assumptions C01_slice_unslice_list.
 
 (* the general form: in ANY admissible receiver state (any stack of open unslicers, any tables) the tokens of t are
    consumed exactly and leave `adv st ..` *)
-Theorem C01_run_slice : forall t n sc vis imm vis' st, wf_at sc vis imm n t = Some vis' -> okst sc vis imm n st ->
+Theorem C01_run_slice : forall t n sc vis imm vis' st, wf_wide sc vis imm n t = Some vis' -> okst sc vis imm n st ->
   run (slice n t) st = Some (adv st [val_of n t] (regs_of n t) (heap_of n t) (opens t)).
-Proof. intros t n sc vis imm vis' st W O. exact (proj1 (run_slice t n sc vis imm vis' st W O)). Qed.
+Proof. exact run_slice_wide. Qed.
 Print Assumptions C01_run_slice.
+
+(* Deferred completion ("including graphs with ... reference cycles", through immutable containers).  The theorems above
+   are about the pointer machine: a reference to a container still being built is a pointer to its node.  The code cannot
+   do that for tuples / frozensets / Copyables: it hands out Deferreds, stores placeholders, registers update callbacks and
+   completes in cascades, which lib/ObjDefer.v models (`drun`, `dunslice`).
+   (a) for EVERY token stream and EVERY state the Deferred-level receiver refines the pointer machine: forget which
+       values are placeholders / Deferreds and each of its steps -- firing a Deferred with any depth of cascade
+       included -- is a step of the pointer machine; *)
+Theorem C01_deferred_refines : forall ts st st', drun ts st = Some st' -> run0 ts (erase_state st) = Some (erase_state st').
+Proof. exact drun_sim. Qed.
+Print Assumptions C01_deferred_refines.
+Theorem C01_deferred_firing_is_invisible : forall fuel k st st', complete fuel k st = Some st' -> erase_state st' = erase_state st.
+Proof. exact complete_erase. Qed.
+Print Assumptions C01_deferred_firing_is_invisible.
+(* (b) hence for every graph a sender can emit (the same guard as above; it contains the strict guard wf_obj of earlier rounds):
+       whatever the Deferred-level receiver delivers -- nothing pending, no placeholder left -- is exactly the denoted
+       graph.  FULL statement wanted: wf_obj_wide scoped n t = true -> dunslice scoped n (slice n t) = Some (heap_of n t, [val_of n t]).
+       Proved: the `_partial` form below (partial correctness).  Missing: progress (no refusal, nothing left pending);
+       it does NOT follow from the guard -- C01_deferred_progress_refuted -- because the guard admits terms in which two
+       tuples directly hold each other, which no Python object graph has; progress is evaluated per case by vm_compute and
+       compared with the implementation (harness, bit 16 of the correspondence code). *)
+Theorem C01_deferred_sound_partial : forall scoped n t r, wf_obj_wide scoped n t = true ->
+  dunslice scoped n (slice n t) = Some r -> r = (heap_of n t, [val_of n t]).
+Proof. exact deferred_sound. Qed.
+Print Assumptions C01_deferred_sound_partial.
+Theorem C01_deferred_sound_list_partial : forall scoped n ts v r, wf_list_wide scoped [] [] n ts = Some v ->
+  dunslice scoped n (slice_list n ts) = Some r -> r = (heap_list n ts, vals_list n ts).
+Proof. exact deferred_sound_list. Qed.
+Print Assumptions C01_deferred_sound_list_partial.
+Theorem C01_wide_guard_contains_strict : forall scoped n t, wf_obj scoped n t = true -> wf_obj_wide scoped n t = true.
+Proof. exact wf_obj_wide_of_strict. Qed.
+Print Assumptions C01_wide_guard_contains_strict.
+Theorem C01_deferred_progress_refuted : wf_obj_wide true 0 wait_cycle = true /\ dunslice true 0 (slice 0 wait_cycle) = None.
+Proof. exact progress_needs_more_than_the_guard. Qed.
+Print Assumptions C01_deferred_progress_refuted.
+(* non-vacuity of (b): A = (L,), B = (A,), L = [B] is outside the strict guard, inside the wide one, and delivered *)
+Theorem C01_deferred_example : wf_obj true 0 abl = false /\ wf_obj_wide true 0 abl = true /\
+  dunslice true 0 (slice 0 abl) = Some (heap_of 0 abl, [val_of 0 abl]).
+Proof. exact ex_abl. Qed.
+Print Assumptions C01_deferred_example.
 
 (* "integers of any magnitude ... no matter how the byte stream is split": down to bytes and back, through the
    lead's stream_roundtrip (chunk-independence of the byte-level receiver is C07) *)
-Theorem C01_bytes_roundtrip : forall scoped n t bs, wf_obj scoped n t = true -> forallb wf_token (slice n t) = true ->
+Theorem C01_bytes_roundtrip : forall scoped n t bs, wf_obj_wide scoped n t = true -> forallb wf_token (slice n t) = true ->
   encode_stream (slice n t) = Ok bs ->
   exists toks, decode bs = (toks, EndClean) /\ unslice scoped n toks = Some (heap_of n t, [val_of n t]).
-Proof. exact bytes_roundtrip. Qed.
+Proof. exact bytes_roundtrip_wide. Qed.
 Print Assumptions C01_bytes_roundtrip.
+
+(* END TO END, "no matter how the byte stream is split into packets": composition with C07.  `tokens_of_chunks cs` is what
+   C07's byte-level receiver (lib/Recv.v: buffering, 64-byte header cap, re-queueing of incomplete tokens; its chunk
+   independence is C07's theorem, reused) hands upward when the bytes arrive as the packets cs.  For EVERY packetisation of
+   the sender's bytes the delivered graph is the sent graph. *)
+Theorem C01_end_to_end_any_chunking : forall scoped n t bs cs,
+  wf_obj_wide scoped n t = true -> forallb wf_token (slice n t) = true -> encode_stream (slice n t) = Ok bs -> List.concat cs = bs ->
+  unslice scoped n (tokens_of_chunks cs) = Some (heap_of n t, [val_of n t]).
+Proof. exact end_to_end_any_chunking. Qed.
+Print Assumptions C01_end_to_end_any_chunking.
+(* the same through the Deferred-level receiver, wide guard (partial correctness as C01_deferred_sound_partial) *)
+Theorem C01_end_to_end_any_chunking_deferred_partial : forall scoped n t bs cs r,
+  wf_obj_wide scoped n t = true -> forallb wf_token (slice n t) = true -> encode_stream (slice n t) = Ok bs -> List.concat cs = bs ->
+  dunslice scoped n (tokens_of_chunks cs) = Some r -> r = (heap_of n t, [val_of n t]).
+Proof. exact end_to_end_any_chunking_deferred. Qed.
+Print Assumptions C01_end_to_end_any_chunking_deferred_partial.
+(* the incremental receiver reads exactly what the whole-string scanner reads, for every clean stream and every packetisation *)
+Theorem C01_chunks_decode : forall cs ts, decode (List.concat cs) = (ts, EndClean) -> forallb no_err ts = true -> tokens_of_chunks cs = ts.
+Proof. exact chunks_decode. Qed.
+Print Assumptions C01_chunks_decode.
 
 (* "... or what vocabulary-compression table is in force" *)
 Theorem C01_vocab_transparent : forall tbl ts, NoDup (map snd tbl) -> forallb no_vocab ts = true ->
@@ -48,23 +116,38 @@ Theorem C01_vocab_transparent : forall tbl ts, NoDup (map snd tbl) -> forallb no
 Proof. exact vocab_transparent. Qed.
 Print Assumptions C01_vocab_transparent.
 
-Theorem C01_roundtrip_any_vocab : forall scoped n t tbl, wf_obj scoped n t = true -> NoDup (map snd tbl) ->
+(* "... and all points at which the table is replaced": the in-band switch.  The sender's queue is ANY interleaving of object
+   tokens and table replacements (Banana.setOutgoingVocabulary: OPEN set-vocab (index string)* CLOSE sent unabbreviated, new
+   table in force right after it); the receiver expands VOCAB tokens with the table in force and replaces its table at the
+   same stream position: the object layer sees exactly the sender's plain tokens.  Hypotheses: indices of every table
+   distinct (dict(zip(words, range))), object tokens are not VOCAB tokens, no object sequence is itself OPEN "set-vocab". *)
+Theorem C01_vocab_switch_in_band : forall items cur fuel,
+  NoDup (map snd cur) -> tables_nodup items -> items_ok items = true ->
+  (List.length (sender_wire cur items) <= fuel)%nat ->
+  receiver_view fuel cur (sender_wire cur items) = Some (plain_tokens items).
+Proof. exact vocab_switch_in_band. Qed.
+Print Assumptions C01_vocab_switch_in_band.
+
+Theorem C01_roundtrip_any_vocab : forall scoped n t tbl, wf_obj_wide scoped n t = true -> NoDup (map snd tbl) ->
   exists toks, devocab tbl (envocab tbl (slice n t)) = Some toks /\ unslice scoped n toks = Some (heap_of n t, [val_of n t]).
-Proof. exact roundtrip_any_vocab. Qed.
+Proof. exact roundtrip_any_vocab_wide. Qed.
 Print Assumptions C01_roundtrip_any_vocab.
 
-(* "Sharing is preserved within one call and never leaks between two calls": (sender) a scoped sequence emitted where
-   nothing outside is visible refers only to objects opened inside itself, and leaves nothing visible behind; *)
+(* "Sharing is preserved within one call and never leaks between two calls": (guard) a scoped sequence admitted by the guard
+   where nothing outside is visible refers only to objects opened inside itself, and leaves nothing visible behind.  This is a
+   statement about which TERMS the guard admits (the terms a per-call reference scope can produce); it is not a theorem about
+   ScopedSlicer, which is not modelled as a machine (see the note above C01_slice_unslice): that the real per-call table is
+   fresh for every call is checked by the oracle (no identity shared between two calls) and the sender-bytes correspondence; *)
 Theorem C01_scope_refs_are_local : forall nm xs imm n vis',
-  wf_at false [] imm n (OCont (CScope nm) xs) = Some vis' -> refs_ge_list (n + 1) xs = true /\ vis' = [].
-Proof. exact scope_refs_are_local. Qed.
+  wf_wide false [] imm n (OCont (CScope nm) xs) = Some vis' -> refs_ge_list (n + 1) xs = true /\ vis' = [].
+Proof. exact (scope_refs_are_local false). Qed.
 Print Assumptions C01_scope_refs_are_local.
 
 (* (receiver) after a call has been closed, a reference in the next call to ANY number outside that call is refused *)
 Theorem C01_scope_isolation_receiver : forall nm1 xs1 nm2 n k v,
-  wf_list false [] [] n [OCont (CScope nm1) xs1] = Some v -> shape_ok (CScope nm2) [] = true ->
+  wf_list_wide false [] [] n [OCont (CScope nm1) xs1] = Some v -> shape_ok (CScope nm2) [] = true ->
   unslice false n (slice_list n [OCont (CScope nm1) xs1; OCont (CScope nm2) [ORef k]]) = None.
-Proof. exact scope_isolation_receiver. Qed.
+Proof. exact (scope_isolation_receiver false). Qed.
 Print Assumptions C01_scope_isolation_receiver.
 
 (* a connection that carried a message the receiver rejected part-way (schema Violation: the rest of the rejected
@@ -87,3 +170,10 @@ Print Assumptions C01_refuted_copy_attr.
 Theorem C01_refuted_dict_key : unslice true 0 (slice 0 witness_dict_key) = None.
 Proof. exact (proj1 refuted_dict_key). Qed.
 Print Assumptions C01_refuted_dict_key.
+(* ... and the Deferred-level receiver refuses them at the point where the code raises (receiveChild given a Deferred) *)
+Theorem C01_refuted_copy_attr_deferred : doutcome true 0 (slice 0 witness_copy_attr) = 1.
+Proof. exact refuted_copy_attr_deferred. Qed.
+Print Assumptions C01_refuted_copy_attr_deferred.
+Theorem C01_refuted_dict_key_deferred : doutcome true 0 (slice 0 witness_dict_key) = 1.
+Proof. exact refuted_dict_key_deferred. Qed.
+Print Assumptions C01_refuted_dict_key_deferred.
